@@ -6,6 +6,8 @@
      damage kind in {intact, missing, corrupt block, corrupt share-hash} to each copy x EVERY
      assignment of a server kind in {ok, errors on every read, disconnects at first read} to each
      server (an extra empty server is always present);
+ (a') 2-of-2 with 3000-byte shares (a Share then has SEVERAL reads outstanding at once): one share number stored
+     twice, one of its two holders fails every read - every schedule with <= 2 (thorough 3) deviations;
  (b) for representative cases: every schedule with <= d deviations (reordered deliveries, the
      share finder's OVERDUE timers fired early) and <= f injected faults (error before a call /
      connection loss, at any remote call).
@@ -107,6 +109,19 @@ def later_failure_cases():
     return out
 
 
+def dup_cases():
+    """shares big enough (3000-byte single segment) that a Share has SEVERAL reads outstanding at once; exactly k
+    distinct share numbers, one of them stored twice, and one holder of the duplicated number fails every read
+    (its failures arrive one by one, the replacement copy is started in between)"""
+    out = []
+    for pl in ({"0": [0, 1], "1": [2]}, {"0": [0], "1": [1, 2]}, {"0": [0, 2], "1": [1]}):
+        for sh, svs in pl.items():
+            if len(svs) == 2:
+                for bad in svs:
+                    out.append(dict(k=2, n=2, seg=3000, size=3000, S=3, placement=pl, damage={}, server_kind={str(bad): "errors-on-read"}, groups=[[[0, None]]]))
+    return out
+
+
 def replay(case):
     trace, viol, obs = lib_imm.run_reads(case["case"], case["prefix"], boot.SEED)
     return viol
@@ -119,6 +134,8 @@ def run(tier, seed):
     res.merge(common.pmap(lib_imm.explore_chunk, lf, (seed, 0, 0, None, "C03")))
     res.merge(common.pmap(lib_imm.explore_chunk, [dict(c, batch=True) for c in lf[::2]], (seed, 0, 0, None, "C03")))
     n0 = res.counts.get("executions", 0)
+    dc = dup_cases()
+    res.merge(common.pmap(lib_imm.explore_chunk, dc, (seed, 2 if tier == "quick" else 3, 0, 20000, "C03"), chunks=len(dc)))
     reps = rep_cases()
     faults = ["error", "disconnect"]
     plan = [(reps, 1, 0), (reps[::2], 0, 1)] if tier == "quick" else [(reps, 2, 0), (reps, 1, 1), (reps[::2], 0, 2)]
